@@ -605,8 +605,28 @@ func histRunCase(c histCase) ([]histOut, error) {
 			for si, sub := range subsets {
 				variants = append(variants, tornVariant{sub, 0})
 				if si == 0 || si == len(subsets)-1 || si%5 == 2 {
-					// the recovery of this image is itself cut short inside its final flush, then repeated
-					variants = append(variants, tornVariant{sub, 1}, tornVariant{sub, 3 + si%3})
+					// the recovery of this image is itself cut short inside its final flush, then repeated:
+					// writes at or beyond page 1 (no page at all), and beyond two other places spread over the
+					// whole file (a root written but not its newer leaf, a leaf but not the newer root, ...)
+					np := len(post) / ps
+					if np < 2 {
+						np = 2
+					}
+					l2 := 2 + (si*7+int(ev.Seed))%(np-1)
+					l3 := 2 + (si*13+5+int(ev.Seed))%(np-1)
+					variants = append(variants, tornVariant{sub, 1}, tornVariant{sub, l2})
+					if l3 != l2 {
+						variants = append(variants, tornVariant{sub, l3})
+					}
+					if si == 0 && np <= 48 {
+						// nothing of the flush was written (a crash before it): cut the recovery's own flush at
+						// every page boundary of the file
+						for l := 2; l <= np; l++ {
+							if l != l2 && l != l3 {
+								variants = append(variants, tornVariant{sub, l})
+							}
+						}
+					}
 				}
 			}
 			for _, tv := range variants {
